@@ -8,7 +8,8 @@ and        %service/async_client.py.j2 (the same block, written differently — 
 The model FOLLOWS THE CODE.  Three layers:
 
 1. schema side  — `getField`, `yielded`, `fieldsMapping`: signature strings → ordered (key → field)
-   mapping with reserved-name suffixing of the TERMINAL segment only and the cross-package filter;
+   mapping with reserved-name suffixing of every segment (since `fix:` a0434d5; before it only the
+   end of the dotted string was suffixed, DESIGN §9-F2) and the cross-package filter;
 2. emission     — `emitCheck`: what CPython demands of the emitted `def` (no duplicate parameter, no
    keyword used as an attribute name) and `attrResolves` (how proto-plus resolves `request.<seg>`);
 3. call side    — `applySync` / `applyAsync` (two textually different application schemes, each with
@@ -104,17 +105,12 @@ structure Entry where
 deriving Repr, DecidableEq
 
 def Entry.field (e : Entry) : Field := e.last.field
-/-- `name += "_" if field.field_pb.name in RESERVED_NAMES else ""` — only the END of the dotted string. -/
-def Entry.suffix (e : Entry) : String := if reserved e.field.pbName then "_" else ""
+/-- the attribute names CPython sees in `request.<key>`: since the `fix:` commit a0434d5 EVERY
+segment named by a reserved word carries the suffix
+(`segment + "_" if segment in utils.RESERVED_NAMES else segment`) — the same key `get_field` looks up. -/
+def Entry.keySegs (e : Entry) : List String := e.segs.map segKey
 /-- the mapping key, i.e. the text rendered after `request.` -/
-def Entry.key (e : Entry) : String := ".".intercalate e.segs ++ e.suffix
-/-- append `sfx` to the last segment -/
-def suffixLast (sfx : String) : List String → List String
-  | [] => []
-  | [l] => [l ++ sfx]
-  | a :: b :: rest => a :: suffixLast sfx (b :: rest)
-/-- the attribute names CPython sees in `request.<key>` -/
-def Entry.keySegs (e : Entry) : List String := suffixLast e.suffix e.segs
+def Entry.key (e : Entry) : String := ".".intercalate e.keySegs
 /-- the Python parameter: `field.name` -/
 def Entry.param (e : Entry) : String := e.field.pyName e.last.ownerPP
 /-- field numbers along the path -/
